@@ -445,3 +445,33 @@ func GoodAdvanceKept(chunks [][]uint64, out []uint64) {
 		next = fileChunkAdvancing(ch, next, out)
 	}
 }
+
+// VALUE-RECORD-COMPLETE
+func BadValueSkipped(vals [][]byte, enc func(uint64) (int, error), data []byte) ([]byte, error) {
+	for _, v := range vals {
+		if len(v) == 0 {
+			continue
+		}
+		if _, err := enc(uint64(len(data))); err != nil {
+			return nil, err
+		}
+		if _, err := enc(uint64(len(v))); err != nil {
+			return nil, err
+		}
+		data = append(data, v...)
+	}
+	return data, nil
+}
+
+func GoodEveryValue(vals [][]byte, enc func(uint64) (int, error), data []byte) ([]byte, error) {
+	for _, v := range vals {
+		if _, err := enc(uint64(len(data))); err != nil {
+			return nil, err
+		}
+		if _, err := enc(uint64(len(v))); err != nil {
+			return nil, err
+		}
+		data = append(data, v...)
+	}
+	return data, nil
+}
